@@ -110,6 +110,17 @@ claim("C08",
       "scipy.signal.convolve/correlate not modelled deductively: the definition/adjoint clause is bounded-only (D<=2 (+one 3-D), lengths<=5, strides<=3).",
       "contract-based deductive verification of the shape arithmetic (symbolic execution, z3) + bounded run-time contract check for the sums")
 
+claim("C16",
+      "The real mri.linop.Sense is executed on symbolic maps / weights / coordinates of symbolic 2-D and 3-D image extents against the callee contracts of "
+      "linop.py's real classes; for every coil count <= 3 (4 thorough) and EVERY coil_batch_size 1..C+1 its forward and adjoint results are proved equal, "
+      "element by element, to the encoding of the property text sqrt(w)*F(mps*x) and sum_c conj(mps)*F^H(sqrt(w)*y) (F = the DFT/NUFFT callee kernel), so "
+      "all batch sizes agree; tseg / transp_nufft options: batched == unbatched. The real SenseRecon / L1WaveletRecon / TotalVariationRecon constructors "
+      "(and _estimate_weights) are run with LinearLeastSquares replaced by a recorder: the operator, sqrt(w)-scaled data (unchanged data for the estimated "
+      "sampling mask), lamda, proxg, G (= circular finite-difference gradient) that reach it are those of the documented objective.",
+      "'Returns the minimiser' is the composition with the LinearLeastSquares (C14), solver (C12/C13), prox (C11) and wavelet-unitarity (C10) contracts and is "
+      "only probed natively (bounded: 4x4 / 4x2x2 images, 4 coils, dense reference optimum); coil count concrete; weights without coil axis; comm=None.",
+      "contract-based deductive verification (symbolic execution of the real constructors against callee contracts, linear-form equality, z3) + bounded native probe")
+
 claim("C18",
       "The real poisson() is executed symbolically (image/calibration extents, accel, tol symbolic; the numba kernel replaced by its contract): on every "
       "returning path the mask is binary, has the requested shape/dtype, |nx*ny/sum(mask)-accel| < tol for exactly the returned mask, the calibration block "
